@@ -674,7 +674,7 @@ def z6(spec):
     )
     _setup(prob, spec, driver)
     inputs = [
-        Inp("loads", _loads(nyh, 2.0e5), "rel", -0.5, 0.5),
+        Inp("loads", _loads(nyh, 2.0e5), "rel", -0.5, 0.5, special=[0.0]),
     ] + ([Inp("load_factor", 1.0, "uni", 0.5, 2.5, special=[1.0])] if s["struct_weight_relief"] else []) + [
         # the very thin values are admissible (an optimiser's infeasible iterates): stresses far beyond the
         # allowable, where the KS aggregate has to stay finite
@@ -712,7 +712,7 @@ def z7(spec):
         prob.model.connect(v, "wing." + v)
     _setup(prob, spec)
     inputs = [
-        Inp("loads", _loads(nyh, 5e4), "rel", -0.5, 0.5),
+        Inp("loads", _loads(nyh, 5e4), "rel", -0.5, 0.5, special=[0.0]),
         Inp("load_factor", 1.0, "uni", 0.5, 2.5, special=[1.0]),
         Inp("point_masses", np.array([[8000.0]]), "rel", -0.5, 0.5, special=[0.0]),
         Inp("engine_thrusts", np.array([[80.0e3]]), "rel", -0.5, 0.5, special=[0.0]),
@@ -950,7 +950,11 @@ def z9(spec):
     """Aerostructural, two tube surfaces (wing + tail), full span, struct_weight_relief."""
     nx, ny = spec.get("nx", 2), spec.get("ny", 5)
     md1, mesh1, _ = _gen_mesh("rect", nx, ny, False, span=30.0, root_chord=4.0)
-    md2, mesh2, _ = _gen_mesh("rect", 2, 3, False, span=10.0, root_chord=2.0, offset=np.array([20.0, 0.0, 1.0]))
+    if spec.get("same_shape"):
+        # the tail gets the wing's mesh shape (wiring slips between surfaces only go unnoticed by set-up then)
+        md2, mesh2, _ = _gen_mesh("rect", nx, ny, False, span=10.0, root_chord=2.0, offset=np.array([20.0, 0.0, 1.0]))
+    else:
+        md2, mesh2, _ = _gen_mesh("rect", 2, 3, False, span=10.0, root_chord=2.0, offset=np.array([20.0, 0.0, 1.0]))
     wing = _aero_surface("wing", mesh1, False, np.array([2.0, 4.0, 2.0]), viscous=True, thickness_cp=np.array([0.05, 0.08, 0.05]))
     wing.update(_tube_props(struct_weight_relief=True))
     tail = _aero_surface("tail", mesh2, False, np.array([0.0]), viscous=True, thickness_cp=np.array([0.03]))
@@ -1475,6 +1479,7 @@ def variants():
         {"zoo": "Z8", "pm": True},
         {"zoo": "Z9"},
         {"zoo": "Z9", "rotational": True},
+        {"zoo": "Z9", "same_shape": True},
         {"zoo": "Z10"},
         {"zoo": "Z11", "compressible": True},
         {"zoo": "Z11", "ground": True},
